@@ -482,3 +482,234 @@ Proof.
   destruct (aget u (s_last st)) as [l|]; [|exact Hq].
   apply negb_true_iff in Elast. rewrite Elast. exact Hq.
 Qed.
+
+(* ---- G. claimed amounts are unsigned in every reachable state (discharges the hypothesis of claim_eq_query) ------------------ *)
+Lemma claim_epochs_nonneg : forall fuel e cur count ea ee h snap s s',
+  claim_epochs v_fixed fuel e cur count ea ee h snap s = Ok s' ->
+  Forall (fun x => 0 <= snd x) h -> 0 <= l_lw s -> Forall (fun x => 0 <= snd x) snap ->
+  f_claimed (l_flow s) <= f_claimed (l_flow s').
+Proof.
+  induction fuel as [|fuel IH]; intros e cur count ea ee h snap s s' H Hh Hlw Hsn.
+  - cbn in H. inversion H; subst. lia.
+  - cbn [claim_epochs] in H.
+    destruct (cur <? e); [inversion H; subst; lia|].
+    destruct (CLAIM_CAP <? count + 1); [inversion H; subst; lia|].
+    destruct (e <? f_start (l_flow s)).
+    { cbn [v_skip_scan v_fixed] in H. destruct (aget e h) as [w0|] eqn:Eg.
+      - pose proof (IH _ _ _ _ _ _ _ _ _ H Hh) as Hrec. cbn in Hrec. apply Hrec; [|exact Hsn].
+        rewrite Forall_forall in Hh. specialize (Hh _ (aget_in _ _ _ Eg)). exact Hh.
+      - exact (IH _ _ _ _ _ _ _ _ _ H Hh Hlw Hsn). }
+    destruct (ee <=? e); [inversion H; subst; lia|].
+    apply bind_ok in H as [[emission emitted] [Eem H]]. pose proof (emission_nonneg _ _ _ _ _ Eem) as Hem.
+    apply bind_ok in H as [f1 [Ef1 H]].
+    assert (Hcl1 : f_claimed f1 = f_claimed (l_flow s)).
+    { destruct (aget e (f_emitted (l_flow s))); [inversion Ef1; reflexivity|]. apply bind_ok in Ef1 as [vv [_ Ef1]]. inversion Ef1; reflexivity. }
+    destruct (weight_lookup h e (l_lu s) (l_lw s)) as [[[uw lu1] lw1]|] eqn:Elk.
+    + destruct (weight_lookup_nonneg _ _ _ _ _ _ _ Hh Hlw Elk) as [Huw Hlw1].
+      destruct (aget0 e snap =? 0) eqn:Eg.
+      { pose proof (IH _ _ _ _ _ _ _ _ _ H Hh) as Hrec. cbn in Hrec. specialize (Hrec Hlw1 Hsn). lia. }
+      apply Z.eqb_neq in Eg. pose proof (aget0_pos _ _ Hsn Eg) as Hg.
+      apply bind_ok in H as [r [Er H]]. pose proof (reward_nonneg _ _ _ _ Hem Huw Hg Er) as Hr.
+      apply bind_ok in H as [tot [Etot H]]. apply cadd_ok in Etot. apply bind_ok in H as [u [_ H]].
+      destruct (r =? 0); pose proof (IH _ _ _ _ _ _ _ _ _ H Hh) as Hrec; cbn in Hrec; specialize (Hrec Hlw1 Hsn); lia.
+    + pose proof (IH _ _ _ _ _ _ _ _ _ H Hh) as Hrec. cbn in Hrec. specialize (Hrec Hlw Hsn). lia.
+Qed.
+
+Lemma claim_flows_nonneg : forall fl cur last h snap user lw fl' ms lw',
+  claim_flows v_fixed fl cur last h snap user lw = Ok (fl', ms, lw') ->
+  Forall (fun x => 0 <= snd x) h -> Forall (fun x => 0 <= snd x) snap ->
+  Forall (fun f => 0 <= f_claimed f) fl -> Forall (fun f => 0 <= f_claimed f) fl'.
+Proof.
+  induction fl as [|f r IH]; intros cur last h snap user lw fl' ms lw' H Hh Hsn Hcl.
+  - cbn in H. inversion H; subst. constructor.
+  - cbn [claim_flows] in H. apply Forall_cons_iff in Hcl as [Hcf Hcl].
+    assert (Hskip : forall x0, claim_flows v_fixed r cur last h snap user lw = Ok x0 ->
+                      (let '(r', ms0, lw0) := x0 in Ok (f :: r', ms0, lw0)) = Ok (fl', ms, lw') -> Forall (fun f => 0 <= f_claimed f) fl').
+    { intros [[r' ms0] lw0] E1 E2. inversion E2; subst. constructor; [exact Hcf|]. eapply IH; eauto. }
+    destruct (cur <? f_start f).
+    { apply bind_ok in H as [x0 [E1 H]]. eapply Hskip; eauto. }
+    destruct (flow_latest f) as [exp_amt exp_end].
+    destruct ((exp_end <? cur) && (f_claimed f =? exp_amt)).
+    { apply bind_ok in H as [x0 [E1 H]]. eapply Hskip; eauto. }
+    destruct (earliest h) as [lu0 lw0] eqn:Eea.
+    apply bind_ok in H as [first [_ H]]. apply bind_ok in H as [ls [Es H]].
+    apply bind_ok in H as [[[r' ms0] lw1] [Er H]]. inversion H; subst; clear H.
+    pose proof (earliest_nonneg h Hh) as He. rewrite Eea in He. cbn in He.
+    pose proof (claim_epochs_nonneg _ _ _ _ _ _ _ _ _ _ Es Hh He Hsn) as Hge. cbn in Hge.
+    constructor; [lia|]. eapply IH; eauto.
+Qed.
+
+Definition CInv (st : state) : Prop := Forall (fun f => 0 <= f_claimed f) (s_flows st).
+
+Lemma expand_flow_claimed c st sender fs al x eo asset amount st1 ms :
+  expand_flow v_fixed c st sender fs al x eo asset amount = Ok (st1, ms) -> CInv st -> CInv st1.
+Proof.
+  unfold CInv, expand_flow. intros H HC. destruct (find_flow x (s_flows st)) as [f|] eqn:Ef; [|discriminate].
+  pose proof (find_flow_in _ _ _ Ef) as Hin.
+  apply bind_ok in H as [u0 [_ H]]. apply bind_ok in H as [u1 [_ H]]. apply bind_ok in H as [ms0 [_ H]].
+  apply bind_ok in H as [eu [_ H]]. apply bind_ok in H as [u2 [_ H]]. apply bind_ok in H as [next [_ H]].
+  apply bind_ok in H as [f3 [Erec H]]. apply bind_ok in H as [u3 [_ H]]. apply bind_ok in H as [u4 [_ H]].
+  inversion H; subst; clear H. cbn [s_flows with_flows]. unfold flows_save.
+  apply flows_insert_Forall.
+  - unfold expand_record in Erec.
+    assert (Hsrc : 0 <= f_claimed (if EXP_LIMIT <? ssub (get_flow_end_epoch f) (f_start f)
+                                   then expand_reset v_fixed f (s_epoch st) (get_flow_end_epoch f) asset amount else f)).
+    { destruct (EXP_LIMIT <? _); [cbn; lia|]. rewrite Forall_forall in HC. apply HC. exact Hin. }
+    destruct (hist_get _ _) as [[ex e0]|]; apply bind_ok in Erec as [a [_ Erec]]; inversion Erec; subst; cbn; exact Hsrc.
+  - apply flows_remove_Forall. destruct (EXP_LIMIT <? _); [apply flows_remove_Forall|]; exact HC.
+Qed.
+
+Lemma step_flows_frame c st o st2 :
+  match o with OpenPosition _ _ _ _ _ _ | ExpandPosition _ _ _ _ _ _ | ClosePosition _ _ _ | Withdraw _ | HelperDeposit _ _ _ _ _ _ _ _ _ _ => True | _ => False end ->
+  step v_fixed c st o = Ok st2 -> s_flows st2 = s_flows st.
+Proof.
+  intros Ho Hstep. destruct o; try contradiction; cbn [step] in Hstep.
+  - apply call_ok in Hstep as [st1 [ms [Eh [_ Est]]]]. unfold open_position in Eh.
+    apply bind_ok in Eh as [u0 [_ Eh]]. apply bind_ok in Eh as [ms0 [_ Eh]]. apply bind_ok in Eh as [u1 [_ Eh]].
+    apply bind_ok in Eh as [w [_ Eh]]. apply bind_ok in Eh as [[[gw aw] awh] [_ Eh]]. inversion Eh; subst. rewrite Est. reflexivity.
+  - apply call_ok in Hstep as [st1 [ms [Eh [_ Est]]]]. unfold expand_position in Eh.
+    apply bind_ok in Eh as [ms0 [_ Eh]]. destruct (pos_add _ _ _ _); [|discriminate]. apply bind_ok in Eh as [u1 [_ Eh]].
+    apply bind_ok in Eh as [w [_ Eh]]. apply bind_ok in Eh as [[[gw aw] awh] [_ Eh]]. inversion Eh; subst. rewrite Est. reflexivity.
+  - apply call_ok in Hstep as [st1 [ms [Eh [_ Est]]]]. unfold close_position in Eh.
+    apply bind_ok in Eh as [u0 [_ Eh]]. destruct (pos_take _ _ _) as [[am op']|]; [|discriminate].
+    apply bind_ok in Eh as [ts [_ Eh]]. apply bind_ok in Eh as [w [_ Eh]]. apply bind_ok in Eh as [u1 [_ Eh]].
+    inversion Eh; subst. rewrite Est. reflexivity.
+  - apply call_ok in Hstep as [st1 [ms [Eh [_ Est]]]]. unfold withdraw in Eh.
+    apply bind_ok in Eh as [u0 [_ Eh]]. destruct (_ =? 0); inversion Eh; subst; rewrite Est; reflexivity.
+  - apply bind_ok in Hstep as [[[r b6] lpb] [Eh Hstep]]. apply call_ok in Hstep as [st1 [ms [Er [_ Est]]]].
+    inversion Er; subst r. unfold helper_deposit in Eh.
+    apply bind_ok in Eh as [u0 [_ H]]. apply bind_ok in H as [b0 [_ H]]. apply bind_ok in H as [b1 [_ H]].
+    apply bind_ok in H as [b2 [_ H]]. apply bind_ok in H as [u1 [_ H]]. apply bind_ok in H as [b3 [_ H]].
+    apply bind_ok in H as [b4 [_ H]]. apply bind_ok in H as [b5 [_ H]]. apply bind_ok in H as [u2 [_ H]].
+    apply bind_ok in H as [u3 [_ H]]. apply bind_ok in H as [r0 [Eh H]]. inversion H; subst; clear H.
+    destruct (has_pos user dur (s_open st)).
+    + unfold expand_position in Eh. apply bind_ok in Eh as [ms0 [_ Eh]]. cbn [s_open] in Eh. destruct (pos_add _ _ _ _); [|discriminate].
+      apply bind_ok in Eh as [u5 [_ Eh]]. apply bind_ok in Eh as [w [_ Eh]]. apply bind_ok in Eh as [[[gw aw] awh] [_ Eh]].
+      inversion Eh; subst. rewrite Est. reflexivity.
+    + unfold open_position in Eh. apply bind_ok in Eh as [u5 [_ Eh]]. apply bind_ok in Eh as [ms0 [_ Eh]]. apply bind_ok in Eh as [u6 [_ Eh]].
+      apply bind_ok in Eh as [w [_ Eh]]. apply bind_ok in Eh as [[[gw aw] awh] [_ Eh]]. inversion Eh; subst. rewrite Est. reflexivity.
+Qed.
+
+Lemma step_cinv c st o st2 : WInv st -> CInv st -> step v_fixed c st o = Ok st2 -> CInv st2.
+Proof.
+  intros W HC Hstep.
+  assert (Hfr : match o with OpenPosition _ _ _ _ _ _ | ExpandPosition _ _ _ _ _ _ | ClosePosition _ _ _ | Withdraw _ | HelperDeposit _ _ _ _ _ _ _ _ _ _ => True | _ => False end -> CInv st2).
+  { intros Ho. unfold CInv. rewrite (step_flows_frame c st o st2 Ho Hstep). exact HC. }
+  destruct o; try (apply Hfr; exact I); clear Hfr; cbn [step] in Hstep.
+  - apply bind_ok in Hstep as [e [_ H]]. inversion H; subst. exact HC.
+  - apply bind_ok in Hstep as [b [_ H]]. inversion H; subst. exact HC.
+  - apply bind_ok in Hstep as [b [_ H]]. inversion H; subst. exact HC.
+  - apply call_ok in Hstep as [st1 [ms [Eh [_ Est]]]]. unfold take_snapshot in Eh.
+    destruct (aget (s_epoch st) (s_snap st)); [discriminate|]. inversion Eh; subst. rewrite Est. exact HC.
+  - apply call_ok in Hstep as [st1 [ms [Eh [_ Est]]]]. rewrite Est. unfold open_flow in Eh.
+    apply bind_ok in Eh as [u0 [_ Eh]]. apply bind_ok in Eh as [[a1 m1] [_ Eh]]. apply bind_ok in Eh as [u1 [_ Eh]].
+    apply bind_ok in Eh as [[a2 m2] [_ Eh]]. apply bind_ok in Eh as [dflt [_ Eh]]. apply bind_ok in Eh as [u2 [_ Eh]].
+    apply bind_ok in Eh as [u3 [_ Eh]]. apply bind_ok in Eh as [lim [_ Eh]]. apply bind_ok in Eh as [u4 [_ Eh]].
+    apply bind_ok in Eh as [id [_ Eh]]. inversion Eh; subst. unfold CInv. cbn [s_flows with_bal with_flows]. unfold flows_save.
+    apply flows_insert_Forall; [cbn; lia|apply flows_remove_Forall; exact HC].
+  - apply call_ok in Hstep as [st1 [ms [Eh [_ Est]]]]. rewrite Est. unfold CInv. cbn [s_flows with_bal].
+    exact (expand_flow_claimed _ _ _ _ _ _ _ _ _ _ _ Eh HC).
+  - apply call_ok in Hstep as [st1 [ms [Eh [_ Est]]]].
+    destruct (close_flow_spec _ _ _ _ _ _ Eh) as [f [_ [_ [_ [E1 _]]]]]. rewrite Est, E1. unfold CInv. cbn. apply flows_remove_Forall. exact HC.
+  - apply call_ok in Hstep as [st1 [ms [Eh [_ Est]]]]. unfold claim in Eh.
+    destruct (aget (s_epoch st) (s_snap st)); [|discriminate].
+    apply bind_ok in Eh as [u0 [_ Eh]]. apply bind_ok in Eh as [[[fl ms0] lw] [Ecf Eh]]. apply bind_ok in Eh as [nxt [_ Eh]].
+    inversion Eh; subst. rewrite Est. unfold CInv. cbn.
+    eapply claim_flows_nonneg; [exact Ecf|apply (w_hist_nn _ W)| |exact HC].
+    eapply Forall_impl; [|apply (w_snap _ W)]. cbn. intros; tauto.
+Qed.
+
+(* everything that holds in a reachable state *)
+Theorem reachable_cinv c h : forall st, Forall op_wf_w h -> WInv st -> CInv st -> CInv (run_history v_fixed c st h) /\ WInv (run_history v_fixed c st h).
+Proof.
+  induction h as [|o r IH]; intros st Hw W HC; [split; assumption|]. inversion Hw; subst.
+  change (run_history v_fixed c st (o :: r)) with (run_history v_fixed c (step_total v_fixed c st o) r).
+  unfold step_total. destruct (step v_fixed c st o) as [st2| |] eqn:E; try (apply IH; assumption).
+  apply IH; [assumption|eapply step_winv; eauto|eapply step_cinv; eauto].
+Qed.
+
+(* claim = query, for states reached from instantiation *)
+Theorem claim_eq_query_reachable c h e b u st' :
+  Forall op_wf_w h -> 0 <= e ->
+  let st := run_history v_fixed c (init_state e b) h in
+  (forall f first, In f (s_flows st) ->
+     first_claimable (aget u (s_last st)) f (fst (earliest (s_awh st u))) = Ok first -> s_epoch st - first + 1 <= CLAIM_CAP) ->
+  step v_fixed c st (Claim u) = Ok st' ->
+  get_rewards v_fixed st u = Ok (payouts (s_flows st) (s_flows st')).
+Proof.
+  intros Hw He st Hcap Hstep.
+  destruct (reachable_cinv c h (init_state e b) Hw (init_winv e b He) ltac:(constructor)) as [HC W].
+  eapply claim_eq_query; eauto.
+Qed.
+
+(* claim_le_emission, read off the log: every logged reward is at most the emission of its epoch *)
+Lemma log_ok_le h snap l : Forall (log_ok h snap) l -> Forall (fun x => snd (fst x) <= snd x /\ snd (fst x) <> 0) l.
+Proof. induction 1 as [|[[e r] em] l H _ IH]; constructor; [|exact IH]. unfold log_ok in H. cbn [fst snd]. destruct H as [_ [_ [H1 H2]]]. auto. Qed.
+
+(* ---- the code as found: each missing repair refutes a clause (witnesses = corpus of harness/src/c13.rs) --------------------- *)
+From WW.Proofs Require Import IncentiveC12.
+Definition c13 : cfg := cfg0 3 0.
+Definition op_pos (s a d : Z) : op := OpenPosition s [(3, a)] [] a d None.
+Definition ex_pos (s a d : Z) : op := ExpandPosition s [(3, a)] [] a d None.
+Definition fl13 (s asset amt : Z) (e : option Z) : op :=
+  OpenFlow s (if asset =? 0 then [(0, amt)] else [(0, 1000); (asset, amt)]) [] None e asset amt None.
+
+(* (i) weight of a sum > sum of weights, saturating subtraction *)
+Definition v_no_clamp : ver := mkVer true true true false true true true true true.
+Definition h_desync : list op := [op_pos 2 1000 31556926; op_pos 1 3 15778463; ex_pos 1 3 15778463; ClosePosition 1 15778463 1684342900].
+Theorem weight_desync_refuted :
+  let st := run_history v_no_clamp c13 (init_state 1 b0) h_desync in
+  Forall op_wf_w h_desync /\ s_gw st = 15998 /\ vals_sum (s_aw st) = 15999.
+Proof. cbn zeta. split; [repeat constructor; cbn; lia|]. vm_compute. split; reflexivity. Qed.
+
+(* (ii) close before the epoch's snapshot *)
+Definition v_no_close_snap : ver := mkVer true true true true true false true true true.
+Definition h_close_before_snap : list op :=
+  [fl13 3 1 1000000 (Some 11); op_pos 1 1000 86400; op_pos 2 1000 86400; NewEpoch; Snapshot; Claim 1; Claim 2; NewEpoch;
+   ClosePosition 1 86400 1684515600; Snapshot].
+Theorem close_before_snapshot_refuted :
+  let st := run_history v_no_close_snap c13 (init_state 1 b0) h_close_before_snap in
+  Forall op_wf_w h_close_before_snap /\ aget 3 (s_snap st) = Some 1000 /\ share_sum (s_awh st) 3 [1; 2] = 2000.
+Proof. cbn zeta. split; [repeat constructor; cbn; lia|]. vm_compute. split; reflexivity. Qed.
+
+(* (iii) claim writes the last weight its loop saw: a closed position keeps its weight *)
+Definition v_no_claim_cur : ver := mkVer true true true true true true false true true.
+Definition h_resurrect : list op :=
+  [fl13 3 1 1000000 (Some 2); op_pos 1 1000 86400; op_pos 2 1000 86400; NewEpoch; Snapshot; Claim 1; Claim 2; NewEpoch; Snapshot;
+   ClosePosition 1 86400 1684515600; Claim 1; NewEpoch; Snapshot].
+Theorem claim_rewrites_weight_refuted :
+  let st := run_history v_no_claim_cur c13 (init_state 1 b0) h_resurrect in
+  Forall op_wf_w h_resurrect /\ aget 4 (s_snap st) = Some 1000 /\ aget0 1 (s_aw st) = 0 /\ share_sum (s_awh st) 4 [1; 2] = 2000.
+Proof. cbn zeta. split; [repeat constructor; cbn; lia|]. vm_compute. repeat split; reflexivity. Qed.
+
+(* (v) the share query reports a weight that only starts next epoch *)
+Definition v_no_share_cur : ver := mkVer true true true true true true true false true.
+Definition h_share_future : list op := [op_pos 1 1000 86400; NewEpoch; Snapshot; op_pos 2 1000 86400].
+Theorem share_query_refuted :
+  let st := run_history v_no_share_cur c13 (init_state 1 b0) h_share_future in
+  rewards_share v_no_share_cur st 2 = Ok (1000, 1000, DEC) /\ rewards_share v_no_share_cur st 1 = Ok (1000, 1000, DEC) /\
+  eff (s_awh st 2) (s_epoch st) = 0.
+Proof. vm_compute. repeat split; reflexivity. Qed.
+
+(* (vi) a flow starting after several weight changes: the claim loop used the earliest weight *)
+Definition v_no_skip_scan : ver := mkVer true true true true true true true true false.
+Definition h_stale : list op :=
+  [op_pos 1 1000 86400; op_pos 2 1000 86400; NewEpoch; Snapshot; NewEpoch; Snapshot; ClosePosition 1 86400 1684515600;
+   NewEpoch; Snapshot; NewEpoch; Snapshot; fl13 3 1 1000000 (Some 15); NewEpoch; Snapshot].
+Theorem stale_weight_refuted :
+  let st := run_history v_no_skip_scan c13 (init_state 1 b0) h_stale in
+  eff (s_awh st 1) 5 = 0 /\ eff (s_awh st 1) 6 = 0 /\ aget0 1 (s_aw st) = 0 /\
+  get_rewards v_no_skip_scan st 1 = Ok [(1, 200000)] /\
+  exists st', step v_no_skip_scan c13 st (Claim 1) = Ok st' /\ s_bal st' 1 1 - s_bal st 1 1 = 200000.
+Proof.
+  cbn zeta. split; [vm_compute; reflexivity|]. split; [vm_compute; reflexivity|]. split; [vm_compute; reflexivity|]. split; [vm_compute; reflexivity|].
+  eexists. split; [vm_compute; reflexivity|]. vm_compute. reflexivity.
+Qed.
+
+(* the same histories on the repaired code *)
+Lemma witnesses_fixed_c13 :
+  (let st := run_history v_fixed c13 (init_state 1 b0) h_desync in s_gw st = vals_sum (s_aw st)) /\
+  (let st := run_history v_fixed c13 (init_state 1 b0) h_close_before_snap in share_sum (s_awh st) 3 [1; 2] <= aget0 3 (s_snap st)) /\
+  (let st := run_history v_fixed c13 (init_state 1 b0) h_resurrect in share_sum (s_awh st) 4 [1; 2] <= aget0 4 (s_snap st)) /\
+  (let st := run_history v_fixed c13 (init_state 1 b0) h_stale in get_rewards v_fixed st 1 = Ok []).
+Proof. vm_compute. repeat split; try reflexivity; discriminate. Qed.
